@@ -23,6 +23,15 @@ Doc1(cols, cells) == [pairs |-> <<>>, enums |-> <<>>,
 StrCols == << Col(<<"s">>, KwChar, 0, 4), Col(<<"t">>, KwChar, 2, 2) >>
 StringDoc(s, e1, e2) == Doc1(StrCols, <<s, <<e1, e2>>>>)
 
+(* ---- curated: longer strings aimed at the reader's substitutions (double braces, quotes, comments) ---- *)
+WideCols == << Col(<<"s">>, KwChar, 0, 12), Col(<<"t">>, KwChar, 2, 12) >>
+WideDoc(s, e1, e2) == Doc1(WideCols, <<s, <<e1, e2>>>>)
+Curated == { <<"a", "{", "{", "}", "}", "b">>, <<"a", SP, "{", "{", "}", "}", SP, "b">>, <<"a", SP, "{", SP, "{", SP, "}", SP, "}", SP, "b">>,
+             <<"x", SP, "{", "{", "}", "}">>, <<"x", SP, "{", "}", SP, "y">>, <<"a", ";", "b", SP, "c">>, <<"#", SP, "x">>, <<"a", SP, "#", SP, "b", SP, "#">>,
+             <<SP, "l", "e", "a", "d">>, <<"t", "r", "a", "i", "l", SP>>, <<"a", TAB, "b">>, <<";", "{", "}">>, <<"t", "y", "p", "e", "d", "e", "f">>,
+             <<"S">>, <<"s", SP, "1">>, <<"a", BS, "b">>, <<"a", SP, BS, SP, "b">>, <<"}", SP, "x">>, <<"x", SP, "{">> }
+CuratedElems == {e \in Curated : ElementStringOK(e)}
+
 (* ---- types: every column list over 12 kinds, 0..2 rows ---- *)
 Kinds12 == {"short", "int", "long", "float", "double", "short2", "int2", "long2", "float2", "double2",
             "char3", "char23", "enum"}
@@ -95,6 +104,10 @@ Init ==
   \/ /\ "elements" \in Families
      /\ \E e1 \in SeqsUpTo(Alpha \ {"}"}, 2) : \E e2 \in SeqsUpTo(Alpha \ {"}"}, 2) :
           ElementStringOK(e1) /\ ElementStringOK(e2) /\ Gen("elements", StringDoc(<<"z">>, e1, e2), TRUE)
+  \/ /\ "curated" \in Families
+     /\ \/ \E s \in Curated : ScalarStringOK(s) /\ Gen("curated", WideDoc(s, <<"p">>, <<>>), TRUE)
+        \/ \E e \in CuratedElems : Gen("curated", WideDoc(<<"z">>, e, <<"q">>), TRUE)
+        \/ \E e \in CuratedElems : Gen("curated", WideDoc(<<"z">>, <<>>, e), TRUE)
   \/ /\ "types" \in Families
      /\ \E n \in 1..MaxCols : \E ks \in [1..n -> Kinds12] : \E nr \in 0..2 : Gen("types", TypesDoc(ks, nr), TRUE)
   \/ /\ "tables" \in Families
